@@ -16,7 +16,7 @@ func init() {
 		ID:          "C08",
 		Title:       "Entity events: exactly once per committed change, none for undone work",
 		Technique:   "static analysis: exactly-once must-pass rules for event firing in Create/Update/DeleteById, final-state reload ordering, who-may-call rule restricting delivery to tx.OnCommit registrations, sibling table over the three listener adapters (change type ↔ predicate ↔ state ↔ sync/async), decision tables of the event-type predicates, Update/Batch agreement on tx-complete registration; once-per-transaction placement rule; decision table of the listener adapters over one loop iteration; flow accounting of DeleteById",
-		LevelText:   "Decides on every path: Create and Update fire exactly one parent event and one own event (no loop, after reloading the committed state), DeleteById fires one event per collected change flow; events are delivered only through functions registered with bbolt Tx.OnCommit (so nothing is delivered for a transaction that does not commit); the parent flow exists only for child stores and is marked as parent event; each adapter invokes its listener once per matching (change type, predicate) with the final state for create/update and the initial state for delete, synchronously or via `go` exactly as the event type says; Update and Batch both register the tx-complete listeners with OnCommit. Delivery counts on real histories and asynchronous ordering are not decided. Tx-complete registration and the pre-commit run sit only in the body of the outermost bolt transaction (a joined nested call does neither again); AddTxCompleteListener appends on every path; the three listener adapters are decided as a 64-row table (delivered exactly once iff the event matches, with the right state, via go iff async); every change flow DeleteById collects has exactly one firing mechanism on every successful path. Added in round 8: binding a transaction to a mutate context registers the commit handler with it unconditionally (COMMITHOOK). Added in round 10: COMMITHOOK covers every store of a transaction into the context's transaction field, constructors included. Added in round 11: listener states are loaded through store.impl (IMPLSTATE); the post-commit loop ends only when all constraints have run (POSTALL).",
+		LevelText:   "Decides on every path: Create and Update fire exactly one parent event and one own event (no loop, after reloading the committed state), DeleteById fires one event per collected change flow; events are delivered only through functions registered with bbolt Tx.OnCommit (so nothing is delivered for a transaction that does not commit); the parent flow exists only for child stores and is marked as parent event; each adapter invokes its listener once per matching (change type, predicate) with the final state for create/update and the initial state for delete, synchronously or via `go` exactly as the event type says; Update and Batch both register the tx-complete listeners with OnCommit. Delivery counts on real histories and asynchronous ordering are not decided. Tx-complete registration and the pre-commit run sit only in the body of the outermost bolt transaction (a joined nested call does neither again); AddTxCompleteListener appends on every path; the three listener adapters are decided as a 64-row table (delivered exactly once iff the event matches, with the right state, via go iff async); every change flow DeleteById collects has exactly one firing mechanism on every successful path. Added in round 8: binding a transaction to a mutate context registers the commit handler with it unconditionally (COMMITHOOK). Added in round 10: COMMITHOOK covers every store of a transaction into the context's transaction field, constructors included. Added in round 11: listener states are loaded through store.impl (IMPLSTATE); the post-commit loop ends only when all constraints have run (POSTALL). Added in round 13: the change flow an iteration of the child-store loop of DeleteById is answered is appended or used in that iteration, not left in a variable the next iteration overwrites (FLOWKEPT).",
 		LevelNote:   "Trusted: go/types, x/tools SSA, bbolt OnCommit semantics (hooks run only after a successful commit).",
 		DesignRef:   "DESIGN.md C08",
 		Explanation: "Sites: BaseStore.Create/Update/DeleteById/fireParentEvent, EntityChangeState.fireEvents/initFromChild/loadFinalState, the three *ListenerAdapter.ProcessPostCommit, EntityEventType predicates, DbImpl.Update/Batch closures.",
@@ -35,6 +35,7 @@ func init() {
 			ruleRegistrationReachesPhase(c, "C08.LISTENERREG", "post")
 			ruleListenersKept(c, "C08.LISTENERSKEPT", "txCompleteListeners")
 			ruleC08Actions(c)
+			ruleLoopFlowKept(c, "C08.FLOWKEPT")
 			ruleCtxIdentity(c, "C08.CTXIDENTITY")
 			// updates and deletes through the parent reach a child store only through its registered strategy
 			ruleChildStrategiesAppend(c, "C08.CHILDREG")
